@@ -21,23 +21,24 @@ EXPL = ("PROV: cell_to_lonlat returns to_lon_lat(inverse(get_center(get_pentagon
 
 
 def dispatch(facts, path):
-    """{regime: (callee, stripped args)}; regime = ('eq', k) for resolution == k, 'else' otherwise"""
+    """{regime: [(callee, stripped args, call site)]}: which tiling constructor builds the geometry for resolution 0, for
+    resolution 1 and for the curve levels ('else'), decided by evaluating the guards on the cell's resolution for
+    r = 0, 1, 2, 7 - whether they are written as ==-tests, early returns or a match"""
+    from ..query import regime_assumptions, feasible_blocks
     ft = fn_terms(facts, path)
+    res_t = ("field", ("deref", ("param", 1)), "resolution")
+    per_r = {}
+    for r in (0, 1, 2, 7):
+        A = regime_assumptions(ft, res_t, r, r)
+        feas = feasible_blocks(ft, A)
+        per_r[r] = [(c.callee, tuple(strip_all(a) for a in c.args), c) for c in ft.calls() if c.callee in CONSTRUCTORS and c.block in feas]
     out = {}
-    for c in ft.calls():
-        if c.callee not in CONSTRUCTORS:
-            continue
-        regime = "else"
-        for d, vals, other, excl, _b in ft.conditions(c.block):
-            if d[0] == "bin" and d[1] == "Eq" and other and 0 in excl:  # condition true
-                side = [x for x in (d[2], d[3]) if not (x[0] == "deref" or x[0] == "field" or x[0] == "call")]
-                var = [x for x in (d[2], d[3]) if x not in side]
-                if len(side) == 1 and len(var) == 1 and any(y[0] == "field" and y[2] == "resolution" for y in walk(var[0])):
-                    try:
-                        regime = ("eq", ieval(ft, side[0], {}))
-                    except Undetermined:
-                        regime = ("eq", fmt(side[0]))
-        out.setdefault(regime, []).append((c.callee, tuple(strip_all(a) for a in c.args), c))
+    if per_r[0]:
+        out[("eq", 0)] = per_r[0]
+    if per_r[1]:
+        out[("eq", 1)] = per_r[1]
+    same_else = [(a, b) for a, b, _c in per_r[2]] == [(a, b) for a, b, _c in per_r[7]]
+    out["else"] = per_r[2] if same_else else per_r[2] + per_r[7]
     return out
 
 
@@ -63,6 +64,11 @@ def run(ctx):
     oks = [t for t in returns_under(ft, {}) if is_variant(t, "Ok")]
     good = [t for t in oks if t[3][0][0] == "call" and t[3][0][1] == TOLL and t[3][0][2][0][0] == "payload" and t[3][0][2][0][2][0] == "call" and t[3][0][2][0][2][1] == INV]
     world = [t for t in oks if t not in good]
+    # `inverse(..).map(to_lon_lat)` is the same result spelled with a combinator
+    for t in returns_under(ft, {}):
+        if t[0] == "call" and isinstance(t[1], str) and t[1].endswith("Result::map") and len(t[2]) == 2 \
+                and t[2][0][0] == "call" and t[2][0][1] == INV and t[2][1][0] == "fnref" and t[2][1][1] == TOLL:
+            good.append(t)
     run.inst("C02.R1", "centre-returned", len(good) == 1 and len(world) <= 1, "Ok results: %s" % [fmt(t)[:90] for t in oks], where(facts.fns[C2L]["span"]))
     # ---- R2
     dp, dc = dispatch(facts, GETP), dispatch(facts, CONT)
